@@ -87,7 +87,10 @@ def fuzz(mods, hname, trials, seed):
     rng = random.Random(seed)
     res = {"harness": hname, "runs": 0, "skipped": 0, "clauses": 0, "failed": {}, "errors": []}
     for h in api.REGISTRY["harness"]:
-        if hname not in h.name:
+        if hname.startswith("@"):
+            if hname[1:] not in h.prop:
+                continue
+        elif hname not in h.name:
             continue
         for t in range(trials):
             case = h.cases[t % len(h.cases)]
